@@ -297,8 +297,30 @@ func mkPayload(caseID, msg int) []byte {
 	return b
 }
 
-// parsePayload returns the message id, or -1 for bytes this window did not send.
+// poison overwrites a payload the callback was handed, just before the callback returns. p2p.Receiver:
+// "All of the message's fields may be modified inside fn. A message is only ever delivered to one place,
+// so the message will never be accessed concurrently or after the call to fn."
+func poison(b []byte) {
+	for i := range b {
+		b[i] = 0xA5
+	}
+}
+
+func poisoned(b []byte) bool {
+	for _, x := range b {
+		if x != 0xA5 {
+			return false
+		}
+	}
+	return len(b) > 0
+}
+
+// parsePayload returns the message id, -1 for bytes this window did not send, and -2 for bytes that an
+// earlier callback has overwritten (the buffer was handed out again after its callback returned).
 func parsePayload(caseID int, b []byte) int {
+	if poisoned(b) {
+		return -2
+	}
 	if len(b) != payloadLen || string(b[:4]) != "VRF1" || int(binary.BigEndian.Uint32(b[4:])) != caseID {
 		return -1
 	}
